@@ -86,6 +86,9 @@ def _loop_over(func, attr_names):
             target, it = n.generators[0].target, n.generators[0].iter
         if it is None:
             continue
+        while isinstance(it, ast.Call) and isinstance(it.func, ast.Name) and \
+                it.func.id in ('reversed', 'sorted', 'list', 'tuple') and it.args:
+            it = it.args[0]      # the order check looks at the original iterator
         attrs = None
         if isinstance(it, ast.Call) and isinstance(it.func, ast.Name) and it.func.id == 'zip':
             attrs = []
@@ -699,11 +702,14 @@ def rule_Q1_Q2(ctx, rid1='Q1', rid2='Q2'):
         return False
     # last row selection of the proposals before they are cached
     caches = [n for n in cfg.nodes if n.kind == 'stmt' and isinstance(n.ast, ast.Assign) and
-              dotted(n.ast.targets[0]) == 'self.points' and 'vstack' in unparse(n.ast.value)]
+              dotted(n.ast.targets[0]) == 'self.points' and
+              any(dotted(x) == 'self.points' for x in ast.walk(n.ast.value)) and
+              any(isinstance(x, ast.Name) and x.id not in ('np', 'self')
+                  for x in ast.walk(n.ast.value))]
     ctx.require(caches, 'Union.sample: cache update not found')
     cache = caches[0]
     pname = [s.id for s in ast.walk(cache.ast.value) if isinstance(s, ast.Name) and
-             s.id != 'np'][0]
+             s.id not in ('np', 'self')][0]
     sels = [n for n in cfg.nodes if n.kind == 'stmt' and isinstance(n.ast, ast.Assign) and
             isinstance(n.ast.targets[0], ast.Name) and n.ast.targets[0].id == pname and
             isinstance(n.ast.value, ast.Subscript) and
